@@ -2,3 +2,6 @@
 open Util
 let str_of_hex h = let cl = unhex h in let b = Buffer.create 64 in L.iter (Buffer.add_char b) cl; Buffer.contents b
 let chars (s : string) : char list = L.init (SS.length s) (SS.get s)
+let rec pos_to_int = function BinNums.Coq_xH -> 1 | BinNums.Coq_xO p -> 2 * pos_to_int p | BinNums.Coq_xI p -> 2 * pos_to_int p + 1
+let n_to_int = function BinNums.N0 -> 0 | BinNums.Npos p -> pos_to_int p
+let z_to_string = function BinNums.Z0 -> "0" | BinNums.Zpos p -> string_of_int (pos_to_int p) | BinNums.Zneg p -> "-" ^ string_of_int (pos_to_int p)
